@@ -31,7 +31,7 @@ import vlib
 
 PART = "notarysvc"
 SUB = "notarysvc"
-MC_QUICK = ("MC_U1q", "MC_U3q", "MC_U4q", "MC_live4", "MC_withdraw")
+MC_QUICK = ("MC_U1q", "MC_U3q", "MC_U4q", "MC_live1", "MC_withdraw")
 MC_THOROUGH = ("MC_U1", "MC_U2", "MC_U3", "MC_U4", "MC_U1q", "MC_U2q", "MC_U3q", "MC_U4q", "MC_live1", "MC_live4", "MC_withdraw")
 # named deviations of NotarySvcImpl and the invariant that must refute each
 DEVIATIONS = {
@@ -41,7 +41,7 @@ DEVIATIONS = {
     "MC_dev_nowithdraw": "WithdrawnInv",
 }
 SIMS = (("Sim_U1", 60), ("Sim_U2", 60), ("Sim_U3", 60), ("Sim_U4", 60), ("Sim_U5", 90))
-EXPECTED_BEYOND = ("beyond:Withdrawn", "beyond:NothingLost")
+EXPECTED_BEYOND = ("beyond:Withdrawn", "beyond:NothingLost")   # established behaviour of the unchanged tree
 JUDGED = ("AdmitSound", "PoolNoConflict", "PoolSolvent", "Proposable", "OneOutcome")
 
 
